@@ -296,6 +296,8 @@ async fn run_prune(ctx: &Arc<RunCtx>) {
             }
         }
     }
+    // the pruner can read its clock any time from now on
+    obs.st.lock().unwrap().last_pruner_call_wall = Some(ctx.wall_now_ns());
     let store_pruner = RecStore::new(inner.clone(), "pruner", ctx, obs.clone(), store_delay);
     let (daser, mut daser_cmds) = verif::mocked_daser();
     let pruner = verif::start_pruner(&daser, store_pruner, blockstore.clone(), &events, Duration::from_millis(block_time_ms), pruning_window, sampling_window);
